@@ -58,6 +58,16 @@ func (cfg *Config) merge(src *Config) error {
 		return err
 	}
 
+	// mergo keeps the destination's (never empty) Variables container and
+	// drops the source's, so the variables are merged explicitly
+	if src != nil && src.Variables != nil {
+		if cfg.Variables == nil {
+			cfg.Variables = src.Variables
+		} else {
+			cfg.Variables = cfg.Variables.Merge(src.Variables)
+		}
+	}
+
 	return nil
 }
 
